@@ -45,8 +45,26 @@ func defaultServiceConfigOf(dopts []grpc.DialOption) (js string, ok bool) {
 		return "", false
 	}
 	p := reflect.NewAt(fld.Type(), unsafe.Pointer(fld.UnsafeAddr())).Elem()
+	lastResolverSCOff = resolverSCUnknown
+	if d := do.Elem().FieldByName("disableServiceConfig"); d.IsValid() && d.Kind() == reflect.Bool {
+		lastResolverSCOff = resolverSCOn
+		if d.Bool() {
+			lastResolverSCOff = resolverSCOff
+		}
+	}
 	if p.IsNil() {
 		return "", true
 	}
 	return p.Elem().String(), true
 }
+
+// Whether the option list decoded last also switches off service configs
+// delivered by the resolver (grpc.WithDisableServiceConfig): a default service
+// config is only what the channel runs with when the resolver brings none.
+const (
+	resolverSCUnknown = iota
+	resolverSCOn
+	resolverSCOff
+)
+
+var lastResolverSCOff int
